@@ -470,7 +470,13 @@ def eval_file(desc, ctx):
         force = Forcing(mods, filename=str(d / "forcing_*.nc"), extra_forcing=["temp"])
         mods["forcing"] = force
         try:
-            for _ in range(obs + 1):
+            for s_ in range(obs + 1):
+                # before the observed step the particles sit elsewhere (each at its neighbour's position, same
+                # depths, same number): what is felt at the observed step belongs to the position held THEN
+                if P > 1 and s_ < obs:
+                    stt["X"], stt["Y"] = np.roll(np.array(X), 1), np.roll(np.array(Y), 1)
+                else:
+                    stt["X"], stt["Y"] = np.array(X), np.array(Y)
                 tk.update()
                 force.update()
             U, V = force.velocity(stt.X, stt.Y, stt.Z)
